@@ -44,7 +44,7 @@ def lazy_prefix_v(code, n, V, bound, model):
 def build(tier, seed, known):
     plan = Plan(prop="C14")
     cat = json.load(open(os.path.join(VERIF, "c14_catalogue.json")))["entries"]
-    nmax = 5 if tier == "quick" else 8
+    nmax = 5 if tier == "quick" else 12
     src = PRE
     for e in cat:
         name = e["name"]
